@@ -118,11 +118,15 @@ Theorem C13_pipeline_process :
 Proof. exact pipeline_numeric_NoDup. Qed.
 Print Assumptions C13_pipeline_process.
 
-(* Alpha generators over the same duplicate-free alphabet (any min_chars), same randomize_codes
-   flag, same template containing `index`: a code in common forces the same index, and the same
-   context / pid if the template contains `context` / `pid`.  NOT covered: generators over
-   different alphabets (their codes are not comparable by decoding). *)
-Theorem C13_pipeline_alpha_same_template :
+(* FULL STATEMENT FOR ALPHA CODES (false, see C13_refuted_default_alpha_small_mode):
+     codes of alpha generators are pairwise distinct across generators, in both id modes.
+   PROVED PART: alpha generators over the same duplicate-free alphabet (any min_chars), same
+   randomize_codes flag, same template containing `index`: a code in common forces the same
+   index, and the same context / pid IF THE TEMPLATE CONTAINS `context` / `pid`.  This covers the
+   big-id default template (pid,context,index) and every user template with `context`; it says
+   nothing across generators for the small-id default template (`index` alone).  Also missing:
+   generators over different alphabets (their codes are not comparable by decoding). *)
+Theorem C13_pipeline_alpha_partial :
   forall (mask : Z -> Z -> Z) (nbits bpc : Z -> Z) a a' tpl pid pid' c c' i i' s,
     al_alphabet a = al_alphabet a' -> al_randomize a = al_randomize a' ->
     NoDup (al_alphabet a) -> (2 <= length (al_alphabet a))%nat ->
@@ -131,30 +135,32 @@ Theorem C13_pipeline_alpha_same_template :
     alpha_value mask nbits bpc a' tpl pid' c' i' = Ok s ->
     i = i' /\ (In PContext tpl -> c = c') /\ (In PPid tpl -> pid = pid').
 Proof. exact alpha_value_inj. Qed.
-Print Assumptions C13_pipeline_alpha_same_template.
+Print Assumptions C13_pipeline_alpha_partial.
 
-(* Pipeline, default alpha generators (`unique_alpha_code`, `UniqueId.AlphaCodeGenerator` without
-   template; since fix 73af7bb both id modes contain `context`), any pids, any min_chars, mixed id
-   modes: a code in common means same generator (context number) and same draw. *)
-Theorem C13_pipeline_alpha :
-  forall (mask : Z -> Z -> Z) (nbits bpc : Z -> Z) a a' big big' pid pid' c c' i i' s,
+(* BIG-ID MODE ONLY (the default template then is pid,context,index): default alpha generators
+   with any pids and min_chars share a code only for the same generator and the same draw ... *)
+Theorem C13_pipeline_alpha_big_mode :
+  forall (mask : Z -> Z -> Z) (nbits bpc : Z -> Z) a a' pid pid' c c' i i' s,
     al_alphabet a = al_alphabet a' -> al_randomize a = al_randomize a' ->
     NoDup (al_alphabet a) -> (2 <= length (al_alphabet a))%nat ->
-    alpha_value mask nbits bpc a (default_alpha_tpl big) pid c i = Ok s ->
-    alpha_value mask nbits bpc a' (default_alpha_tpl big') pid' c' i' = Ok s ->
+    alpha_value mask nbits bpc a (default_alpha_tpl true) pid c i = Ok s ->
+    alpha_value mask nbits bpc a' (default_alpha_tpl true) pid' c' i' = Ok s ->
     c = c' /\ i = i'.
-Proof. exact pipeline_alpha_pair. Qed.
-Print Assumptions C13_pipeline_alpha.
+Proof. exact pipeline_alpha_pair_big. Qed.
+Print Assumptions C13_pipeline_alpha_big_mode.
 
-(* ... hence: any number of default alpha generators over one alphabet / randomize flag with
-   pairwise different context numbers, each drawn any number of times: all codes distinct. *)
-Theorem C13_pipeline_alpha_process :
+(* ... hence any number of BIG-ID-MODE default alpha generators over one alphabet / randomize flag
+   with pairwise different context numbers, each drawn any number of times: all codes distinct.
+   (Without the hypothesis ag_big = true this is false: K5.) *)
+Theorem C13_pipeline_alpha_process_big_mode :
   forall (mask : Z -> Z -> Z) (nbits bpc : Z -> Z) (abc : list Z) (rc : bool)
          (gens : list agen) (codes : list (list Z)),
-    NoDup abc -> (2 <= length abc)%nat -> NoDup (map ag_ctx gens) ->
+    NoDup abc -> (2 <= length abc)%nat ->
+    (forall g, In g gens -> ag_big g = true) ->
+    NoDup (map ag_ctx gens) ->
     aprocess_draws mask nbits bpc abc rc gens = map Ok codes -> NoDup codes.
-Proof. exact pipeline_alpha_NoDup. Qed.
-Print Assumptions C13_pipeline_alpha_process.
+Proof. exact pipeline_alpha_NoDup_big. Qed.
+Print Assumptions C13_pipeline_alpha_process_big_mode.
 
 (* every code of an alpha generator uses only its alphabet and has at least min_chars chars *)
 Theorem C13_alpha_generator_charset_min_len :
@@ -164,21 +170,31 @@ Theorem C13_alpha_generator_charset_min_len :
 Proof. exact alpha_value_charset_len. Qed.
 Print Assumptions C13_alpha_generator_charset_min_len.
 
-(* Regression for the repaired finding K5 (fix 73af7bb; witness corpus/C13/k5_default_alpha_small_mode.json).
-   Before the fix the small-id default alpha template was `index` alone and the two default alpha
-   generators below (context numbers 2 and 3, first draw = index 1001, observed
-   mask_for_key(1,27) = 18034063) both gave "2AUHHSZN".  Now they give "2AWHNJIB" and "2B07VI4J". *)
-Example C13_regression_default_alpha_small_mode :
-  exists a,
-    alpha_new (default_alpha_tpl false) None 8 true = Ok a /\
-    alpha_value (fun _ _ => 18034063) (fun n => Z.log2 n + 1) (fun _ => 5) a (default_alpha_tpl false) [] 2 1001
-      = Ok [50; 65; 87; 72; 78; 74; 73; 66] /\
-    alpha_value (fun _ _ => 18034063) (fun n => Z.log2 n + 1) (fun _ => 5) a (default_alpha_tpl false) [] 3 1001
-      = Ok [50; 66; 48; 55; 86; 73; 52; 74].
+(* Known finding K5: in small-id mode the default alpha template is `index` only, so every
+   default alpha generator of a process (`unique_alpha_code`, each default
+   `UniqueId.AlphaCodeGenerator`, and the same `var:` re-created in the next iteration) emits the
+   same sequence. *)
+Theorem C13_default_alpha_small_ignores_context :
+  forall (mask : Z -> Z -> Z) (nbits bpc : Z -> Z) a pid c c' i,
+    alpha_value mask nbits bpc a (default_alpha_tpl false) pid c i =
+    alpha_value mask nbits bpc a (default_alpha_tpl false) pid c' i.
+Proof. exact default_alpha_small_ignores_context. Qed.
+Print Assumptions C13_default_alpha_small_ignores_context.
+
+(* The witness of corpus/C13/k5_default_alpha_small_mode.json: two default alpha generators
+   (context numbers 2 and 3), first draw (index 1001), observed mask_for_key(1,27) = 18034063,
+   int(log(175,2))+1 = 8, int(log(36,2)) = 5: both give "2AUHHSZN". *)
+Theorem C13_refuted_default_alpha_small_mode :
+  exists a c c' i s,
+    alpha_new (default_alpha_tpl false) None 8 true = Ok a /\ c <> c' /\
+    alpha_value (fun _ _ => 18034063) (fun _ => 8) (fun _ => 5) a (default_alpha_tpl false) [] c i = Ok s /\
+    alpha_value (fun _ _ => 18034063) (fun _ => 8) (fun _ => 5) a (default_alpha_tpl false) [] c' i = Ok s.
 Proof.
-  exists (mkAlpha default_alphabet 8 true). split; [vm_compute; reflexivity|].
+  exists (mkAlpha default_alphabet 8 true), 2, 3, 1001, [50; 65; 85; 72; 72; 83; 90; 78].
+  split; [vm_compute; reflexivity|]. split; [discriminate|].
   split; vm_compute; reflexivity.
 Qed.
+Print Assumptions C13_refuted_default_alpha_small_mode.
 
 (* FULL STATEMENT ACROSS TEMPLATES (false): values of generators with DIFFERENT template shapes are
    distinct.  C13_values_collide_only_on_same_numbers says they coincide exactly when the
@@ -230,7 +246,7 @@ Proof. vm_compute. reflexivity. Qed.
 Example C13_ex_alpha_process :
   exists codes,
     aprocess_draws (fun k n => k * 37 + n) (fun n => Z.log2 n + 1) (fun _ => 5) default_alphabet true
-                   [mkAgen false [] 1 8 2; mkAgen true [5] 2 12 2] = map Ok codes /\ length codes = 4%nat.
+                   [mkAgen true [9] 1 8 2; mkAgen true [5] 2 12 2] = map Ok codes /\ length codes = 4%nat.
 Proof.
   eexists (_ :: _ :: _ :: _ :: nil). split; [vm_compute; reflexivity|reflexivity].
 Qed.
